@@ -72,6 +72,11 @@ class Report:
         extra = dict(extra or {})
         if self.harness_errors:
             extra["harness_errors"] = self.harness_errors
+        extra.setdefault("runs_per_hour",
+                         int(coverage.get("evaluations", 0) / max(wall, 1e-9) * 3600))
+        extra.setdefault("seeds", {"VERIF_SEED": self.seed,
+                                   "derivation": "run i of engine E uses blake2b("
+                                                 "f'{VERIF_SEED}/{E}/{i}'); indices 0..n-1"})
         extra["known_findings_reported"] = sorted(self.known)
         extra["violation_keys"] = sorted(self.violations)
         extra.update(self.repo)
